@@ -2,6 +2,7 @@
 import importlib
 
 _MODULES = [
+    "c01_chunking",
     "c09_body_stream",
 ]
 
